@@ -4,7 +4,7 @@
 //! with the Lean model, which also evaluates the invariants I1-I5 on the run.
 //!
 //!   C14 seq        <chip> ; <call>@<irq words|->@<fault|->@<pend|-> ; …     verbose answer
-//!   C14 seq_digest <chip> ; …                                                 transcripts hashed
+//!   C14 seqh <chip> ; …                                                 transcripts hashed
 //! calls: init  sleep:<0|1>  ptx  tx  prx:<s|c|d>  srx  crx  rx  rsc  listen  pcad  cad  sync:<word>
 //! (fixed parameters: SF7/125 kHz/4_5 at 868.1 MHz, 14 dBm, payload 010203, RX buffer 255 bytes,
 //!  Single(13 symbols) / Continuous / DutyCycle(1000, 2000), rx_switch_channel to 868.3 MHz)
@@ -47,6 +47,157 @@ fn fnv_str(s: &str) -> String {
     format!("{:016x}", h.0)
 }
 
+// ---------------------------------------------------------------------------------------------------
+// The abstract chip of lean/LoraVerif/Model/Chip.lean, re-implemented here so that the invariants
+// I1-I5 are ALSO evaluated on the real driver's own transcript and bookkeeping (`C14 inv …` lines),
+// independently of the Lean model of the driver.
+
+#[derive(Clone, Copy, PartialEq, Eq, Debug)]
+enum ChipMode {
+    Sleep,
+    Standby,
+    Tx,
+    Rx,
+    RxDuty,
+    Cad,
+}
+
+// bits: packetType, syncWord, regulator, tcxo, bufferBase, modulation, packet, irq, frequency, pa
+const PT: u16 = 1;
+const SW: u16 = 2;
+const REG: u16 = 4;
+const TCXO: u16 = 8;
+const BB: u16 = 16;
+const MODU: u16 = 32;
+const PKT: u16 = 64;
+const IRQ: u16 = 128;
+const FRQ: u16 = 256;
+const PA: u16 = 512;
+
+#[derive(Clone, Copy)]
+struct Track {
+    mode: ChipMode,
+    items: u16,
+    commanded_asleep: bool,
+    started_unprogrammed: bool,
+}
+
+struct Needs {
+    base: u16,
+    tx: u16,
+    rx: u16,
+    cad: u16,
+}
+
+fn needs_for(regulator: bool, tcxo: bool) -> Needs {
+    let base = PT | SW | BB | if regulator { REG } else { 0 } | if tcxo { TCXO } else { 0 };
+    Needs { base, tx: base | MODU | PKT | IRQ | FRQ | PA, rx: base | MODU | FRQ, cad: base | MODU | FRQ | IRQ }
+}
+
+impl Track {
+    fn start(&mut self, m: ChipMode, need: u16) {
+        self.mode = m;
+        if self.items & need != need {
+            self.started_unprogrammed = true;
+        }
+    }
+    fn step126(&mut self, n: &Needs, w: &[u8]) {
+        let Some(&op) = w.first() else { return };
+        let wake = op == 0xC0;
+        let irq_service = matches!(op, 0x12 | 0x02 | 0x13 | 0x1E | 0x1D | 0x14);
+        if self.mode == ChipMode::Sleep && !wake {
+            self.commanded_asleep = true;
+        } else if self.mode == ChipMode::RxDuty && !wake && !irq_service {
+            self.commanded_asleep = true;
+        }
+        if wake && (self.mode == ChipMode::Sleep || self.mode == ChipMode::RxDuty) {
+            self.mode = ChipMode::Standby;
+        }
+        match op {
+            0x84 => {
+                let cold = w.get(1).map(|a| a & 0x04 == 0).unwrap_or(true);
+                self.mode = ChipMode::Sleep;
+                if cold {
+                    self.items = 0;
+                }
+            }
+            0x80 => self.mode = ChipMode::Standby,
+            0x83 => self.start(ChipMode::Tx, n.tx),
+            0x82 => self.start(ChipMode::Rx, n.rx),
+            0x94 => self.start(ChipMode::RxDuty, n.rx),
+            0xC5 => self.start(ChipMode::Cad, n.cad),
+            0xD1 => self.mode = ChipMode::Tx,
+            0x8A => self.items |= PT,
+            0x96 => self.items |= REG,
+            0x97 => self.items |= TCXO,
+            0x8F => self.items |= BB,
+            0x8B => self.items |= MODU,
+            0x8C => self.items |= PKT,
+            0x08 => self.items |= IRQ,
+            0x86 => self.items |= FRQ,
+            0x8E => self.items |= PA,
+            0x0D => {
+                if w.len() >= 3 && w[1] == 0x07 && w[2] == 0x40 {
+                    self.items |= SW;
+                }
+            }
+            _ => {}
+        }
+    }
+    fn step127(&mut self, n: &Needs, w: &[u8]) {
+        let Some(&a0) = w.first() else { return };
+        let addr = a0 & 0x7f;
+        if addr == 0 && self.mode == ChipMode::Sleep {
+            self.commanded_asleep = true;
+        }
+        if a0 < 128 {
+            return;
+        }
+        let v = w.get(1).copied();
+        match (addr, v) {
+            (0x01, Some(v)) => {
+                if v >= 128 {
+                    self.items |= PT;
+                }
+                match v % 8 {
+                    0 => self.mode = ChipMode::Sleep,
+                    1 => self.mode = ChipMode::Standby,
+                    3 => self.start(ChipMode::Tx, n.tx),
+                    5 | 6 => self.start(ChipMode::Rx, n.rx),
+                    7 => self.start(ChipMode::Cad, n.cad),
+                    _ => {}
+                }
+            }
+            (0x39, _) => self.items |= SW,
+            (0x0e, _) => self.items |= BB,
+            (0x1d, _) => self.items |= MODU,
+            (0x20, _) => self.items |= PKT,
+            (0x11, _) => self.items |= IRQ,
+            (0x06, _) => self.items |= FRQ,
+            (0x09, _) => self.items |= PA,
+            _ => {}
+        }
+    }
+    /// one log token of fakechip.rs; only executed events count
+    fn event(&mut self, is126: bool, n: &Needs, tok: &str) {
+        if tok.ends_with('!') || tok.ends_with('~') {
+            return;
+        }
+        if tok == "Rst" {
+            self.mode = ChipMode::Standby;
+            self.items = 0;
+        } else if let Some(rest) = tok.strip_prefix('s') {
+            let hexs = rest.split('/').next().unwrap_or("");
+            let w = unhex(hexs);
+            if is126 {
+                self.step126(n, &w)
+            } else {
+                self.step127(n, &w)
+            }
+        }
+    }
+}
+
 struct CallSpec<'a> {
     call: &'a str,
     irq: Vec<u16>,
@@ -67,6 +218,10 @@ fn parse_call(tok: &str) -> Option<CallSpec<'_>> {
 
 pub struct CallObs {
     pub line: String,
+    pub result: String,
+    pub log: Vec<String>,
+    pub mode_after: RadioMode,
+    pub cold_after: bool,
     pub steps: usize,
     pub irq_positions: Vec<usize>,
     pub irq_reads: usize,
@@ -79,6 +234,7 @@ fn drive<RK: RadioKind>(rk: RK, w: &Shared, calls: &[CallSpec<'_>], digest: bool
         Ok(l) => l,
         Err(_) => return None,
     };
+    NEW_LOG.with(|l| *l.borrow_mut() = w.borrow().log.clone());
     let mdl = lora
         .create_modulation_params(SpreadingFactor::_7, Bandwidth::_125KHz, CodingRate::_4_5, FREQ)
         .ok()?;
@@ -168,6 +324,10 @@ fn drive<RK: RadioKind>(rk: RK, w: &Shared, calls: &[CallSpec<'_>], digest: bool
             v
         };
         out.push(CallObs {
+            result: res_s.clone(),
+            log: m.log.clone(),
+            mode_after: mode,
+            cold_after: cold,
             line: format!("{} {} {},{},{}", res_s, if digest { fnv_str(&tr) } else { tr }, show_mode(mode), cold, cal),
             steps: m.step,
             irq_positions,
@@ -179,6 +339,16 @@ fn drive<RK: RadioKind>(rk: RK, w: &Shared, calls: &[CallSpec<'_>], digest: bool
         }
     }
     Some(out)
+}
+
+thread_local! {
+    /// transcript of `LoRa::new` of the last `drive`
+    static NEW_LOG: std::cell::RefCell<Vec<String>> = std::cell::RefCell::new(vec![]);
+}
+
+fn run_seq_with_new_log(chip: &str, calls: &[&str]) -> Option<(Vec<CallObs>, Vec<String>)> {
+    let obs = run_seq(chip, calls, true)?;
+    Some((obs, NEW_LOG.with(|l| l.borrow().clone())))
 }
 
 fn irq_default(cfg: &ChipCfg) -> u16 {
@@ -229,9 +399,52 @@ fn run_seq(chip: &str, calls: &[&str], digest: bool) -> Option<Vec<CallObs>> {
     }
 }
 
+/// I1-I5 evaluated on the real driver's run (same predicates, same order as `Driver.C14.runSeq`)
+fn verdict(chip: &str, calls: &[&str]) -> Option<String> {
+    let cfg = parse_chip(chip)?;
+    let is126 = is_126(cfg.variant);
+    let needs = if is126 { needs_for(cfg.dcdc, cfg.tcxo.is_some()) } else { needs_for(false, false) };
+    // the constructor's init: run it as an explicit first call on a driver that `new` already initialised
+    // is not the same thing, so replay it through the tracker from the transcript of `new`
+    let (obs, new_log) = run_seq_with_new_log(chip, calls)?;
+    let mut t = Track { mode: ChipMode::Standby, items: 0, commanded_asleep: false, started_unprogrammed: false };
+    for tok in &new_log {
+        t.event(is126, &needs, tok);
+    }
+    let mut before = RadioMode::Standby;
+    for (i, o) in obs.iter().enumerate() {
+        for tok in &o.log {
+            t.event(is126, &needs, tok);
+        }
+        let n = i + 1;
+        let reported = o.result == "err:TransmitTimeout" || o.result == "err:ReceiveTimeout";
+        if t.commanded_asleep {
+            return Some(format!("I1-commanded-asleep@call{}", n));
+        } else if t.started_unprogrammed {
+            return Some(format!("I3-started-unprogrammed@call{}", n));
+        } else if t.items & needs.base != needs.base && !o.cold_after {
+            return Some(format!("I2-config-lost-but-not-cold_start@call{}", n));
+        } else if reported
+            && before != RadioMode::Receive(RxMode::Continuous)
+            && !(t.mode == ChipMode::Standby && o.mode_after == RadioMode::Standby)
+        {
+            return Some(format!("I4-not-standby-after-failure@call{}", n));
+        } else if o.result == "err:InvalidRadioMode" && !o.log.is_empty() {
+            return Some(format!("I5-chip-commanded-by-refused-call@call{}", n));
+        }
+        before = o.mode_after;
+        if o.stop {
+            break;
+        }
+    }
+    Some("ok".into())
+}
+
 fn parse_line(op: &str) -> Option<(bool, String, Vec<String>)> {
     let rest = op.strip_prefix("C14 ")?;
-    let (digest, rest) = if let Some(r) = rest.strip_prefix("seq_digest ") {
+    let (digest, rest) = if let Some(r) = rest.strip_prefix("seqh ") {
+        (true, r)
+    } else if let Some(r) = rest.strip_prefix("inv ") {
         (true, r)
     } else if let Some(r) = rest.strip_prefix("seq ") {
         (false, r)
@@ -246,6 +459,9 @@ fn parse_line(op: &str) -> Option<(bool, String, Vec<String>)> {
 pub fn eval(op: &str) -> String {
     let Some((digest, chip, calls)) = parse_line(op) else { return "bad-op".into() };
     let cr: Vec<&str> = calls.iter().map(|s| s.as_str()).collect();
+    if op.starts_with("C14 inv ") {
+        return verdict(&chip, &cr).unwrap_or("bad-op".into());
+    }
     match run_seq(&chip, &cr, digest) {
         Some(obs) => obs.iter().map(|o| o.line.clone()).collect::<Vec<_>>().join(" ; "),
         None => "bad-op".into(),
@@ -253,7 +469,7 @@ pub fn eval(op: &str) -> String {
 }
 
 pub fn expand(op: &str) -> Vec<String> {
-    match op.strip_prefix("C14 seq_digest ") {
+    match op.strip_prefix("C14 seqh ") {
         Some(r) => vec![format!("C14 seq {}", r)],
         None => vec![],
     }
@@ -292,6 +508,14 @@ fn classify(ans: &str) -> String {
     }
 }
 
+/// one scenario = two op lines: the run itself (hashed transcripts) and the invariant verdict
+fn emit2(sink: &mut Sink, op: &str, ans: &str, class: &str) {
+    sink.case(op, ans, class, true);
+    let inv = op.replacen("C14 seqh ", "C14 inv ", 1);
+    let v = eval(&inv);
+    sink.case(&inv, &v, &format!("inv-{}", v.split('@').next().unwrap_or("ok")), true);
+}
+
 pub fn run(tier: &str, seed: u64, dir: &str) {
     let mut rng = Rng::new(seed);
     let mut sink = Sink::new(dir);
@@ -319,9 +543,9 @@ pub fn run(tier: &str, seed: u64, dir: &str) {
         for s in &seqs {
             let base = plain(s);
             let Some(obs) = run_seq(chip, &base.iter().map(|x| x.as_str()).collect::<Vec<_>>(), true) else { continue };
-            let op = line("seq_digest", chip, &base);
+            let op = line("seqh", chip, &base);
             let ans = obs.iter().map(|o| o.line.clone()).collect::<Vec<_>>().join(" ; ");
-            sink.case(&op, &ans, &format!("{}-plain-{}", if is126 { "sx126x" } else { "sx127x" }, classify(&ans)), true);
+            emit2(&mut sink, &op, &ans, &format!("{}-plain-{}", if is126 { "sx126x" } else { "sx127x" }, classify(&ans)));
             // depth-4 sequences (thorough): faults / drops / outcomes only on a seeded tenth
             let full = s.len() <= 3 || rng.chance(1, 10);
             if !full || obs.len() < s.len() {
@@ -337,24 +561,24 @@ pub fn run(tier: &str, seed: u64, dir: &str) {
                 for k in 0..o.steps {
                     let mut v = base.clone();
                     v[j] = format!("{}@-@{}@-", s[j], k);
-                    let op = line("seq_digest", chip, &v);
+                    let op = line("seqh", chip, &v);
                     let a = eval(&op);
-                    sink.case(&op, &a, &format!("{}-fault-{}", if is126 { "sx126x" } else { "sx127x" }, classify(&a)), true);
+                    emit2(&mut sink, &op, &a, &format!("{}-fault-{}", if is126 { "sx126x" } else { "sx127x" }, classify(&a)));
                 }
                 for &k in &o.irq_positions {
                     let mut v = base.clone();
                     v[j] = format!("{}@-@-@{}", s[j], k);
-                    let op = line("seq_digest", chip, &v);
+                    let op = line("seqh", chip, &v);
                     let a = eval(&op);
-                    sink.case(&op, &a, &format!("{}-drop-{}", if is126 { "sx126x" } else { "sx127x" }, classify(&a)), true);
+                    emit2(&mut sink, &op, &a, &format!("{}-drop-{}", if is126 { "sx126x" } else { "sx127x" }, classify(&a)));
                 }
                 if o.irq_reads > 0 {
                     for sc in irq_scripts(is126) {
                         let mut v = base.clone();
                         v[j] = format!("{}@{}@-@-", s[j], sc.iter().map(|x| x.to_string()).collect::<Vec<_>>().join(","));
-                        let op = line("seq_digest", chip, &v);
+                        let op = line("seqh", chip, &v);
                         let a = eval(&op);
-                        sink.case(&op, &a, &format!("{}-irq-{}", if is126 { "sx126x" } else { "sx127x" }, classify(&a)), true);
+                        emit2(&mut sink, &op, &a, &format!("{}-irq-{}", if is126 { "sx126x" } else { "sx127x" }, classify(&a)));
                         // an outcome combined with a fault in the error path it triggers
                         if j + 1 == obs.len() {
                             if let Some(ob2) = run_seq(chip, &v.iter().map(|x| x.as_str()).collect::<Vec<_>>(), true) {
@@ -362,9 +586,9 @@ pub fn run(tier: &str, seed: u64, dir: &str) {
                                     for k in 0..l.steps {
                                         let mut v2 = v.clone();
                                         v2[j] = format!("{}@{}@{}@-", s[j], sc.iter().map(|x| x.to_string()).collect::<Vec<_>>().join(","), k);
-                                        let op = line("seq_digest", chip, &v2);
+                                        let op = line("seqh", chip, &v2);
                                         let a = eval(&op);
-                                        sink.case(&op, &a, &format!("{}-irq+fault-{}", if is126 { "sx126x" } else { "sx127x" }, classify(&a)), true);
+                                        emit2(&mut sink, &op, &a, &format!("{}-irq+fault-{}", if is126 { "sx126x" } else { "sx127x" }, classify(&a)));
                                     }
                                 }
                             }
